@@ -69,6 +69,7 @@ func main() {
 	specials := append(prog.ChainSpecials(), prog.BoundarySpecials(e.Thorough)...)
 	specials = append(specials, prog.LimitSpecials(e.Thorough)...)
 	specials = append(specials, prog.InfoSpecials(e.Thorough)...)
+	specials = append(specials, prog.ShortParmsSpecials()...)
 	tstart := time.Now()
 	for i := 0; i < n+len(specials); i++ {
 		id := fmt.Sprintf("p%d", i)
